@@ -174,11 +174,35 @@ def check_value(v, rec, lib, rng, table, tmpdir=None, case_kind="value"):
     return b
 
 
+def poison(lib, rng, rec):
+    """a serialisation that FAILS (values outside the domain: no claim on them) - the NEXT serialisation of a
+    domain value must be unaffected by it"""
+    kind = rng.choice(["huge_int", "too_deep", "circular", "unserializable_late", "mixed_keys_late", "huge_int_late"])
+    if kind == "huge_int":
+        v = {"a": [1, 2, {"n": 10**5000}]}
+    elif kind == "huge_int_late":
+        v = [{"k%d" % i: i for i in range(50)}, "x" * 100, 10**5000]
+    elif kind == "too_deep":
+        v = jsonvals.deep(5000, rng.choice(["list", "dict"]))
+    elif kind == "circular":
+        v = {"a": [1, 2]}
+        v["a"].append(v)
+    elif kind == "unserializable_late":
+        v = {"a": list(range(30)), "z": object()}
+    else:
+        v = {"ok": {"x": 1}, "zz": {1: "a", "b": 2}}
+    o = boundary.call(lib, lib.common.canonserialize, v)
+    rec.count("poison_calls")
+    rec.hist("poison", "%s:%s" % (kind, "return" if o.accepted else o.cls))
+
+
 def run_values(spec, rec, lib):
     rng = random.Random(spec["seed"])
     table = {}
     tmp = spec["scratch"]
     for i in range(spec["count"]):
+        if i % 7 == 3:
+            poison(lib, rng, rec)
         r = rng.random()
         if r < 0.5:
             v = jsonvals.rand_value(rng, 0, 4, 4)
